@@ -157,9 +157,13 @@ impl Scheduler {
         // Ensure workers are spawned for this processor (lazy initialization).
         self.inner.ensure_workers_spawned(processor_id);
 
+        #[cfg(folo_verif)]
+        crate::verif_hook::point("spawn:registry.get_or_init");
         let state = self.inner.registry.get_or_init(processor_id);
 
         // Rent a oneshot channel for the result.
+        #[cfg(folo_verif)]
+        crate::verif_hook::point("spawn:rent");
         let (sender, receiver) = state.result_channel_pool.rent();
 
         // Wrap the task to capture panics and send the result.
@@ -169,6 +173,8 @@ impl Scheduler {
 
         // Push to the appropriate queue.
         if urgent {
+            #[cfg(folo_verif)]
+            crate::verif_hook::point("spawn:urgent_queue.push");
             state
                 .urgent_queue
                 .lock()
@@ -181,6 +187,8 @@ impl Scheduler {
                 "spawned urgent task"
             );
         } else {
+            #[cfg(folo_verif)]
+            crate::verif_hook::point("spawn:regular_queue.push");
             state
                 .regular_queue
                 .lock()
@@ -197,6 +205,8 @@ impl Scheduler {
         // Record the spawn for metrics.
         state.record_task_spawned();
 
+        #[cfg(folo_verif)]
+        crate::verif_hook::point("spawn:notify");
         // Notify one worker that work is available.
         state.wake_event.notify(1);
 
@@ -218,6 +228,8 @@ impl Scheduler {
         // Ensure workers are spawned for this processor (lazy initialization).
         self.inner.ensure_workers_spawned(processor_id);
 
+        #[cfg(folo_verif)]
+        crate::verif_hook::point("spawn:registry.get_or_init");
         let state = self.inner.registry.get_or_init(processor_id);
 
         // Wrap the task to capture panics and log them.
@@ -227,6 +239,8 @@ impl Scheduler {
 
         // Push to the appropriate queue.
         if urgent {
+            #[cfg(folo_verif)]
+            crate::verif_hook::point("spawn:urgent_queue.push");
             state
                 .urgent_queue
                 .lock()
@@ -239,6 +253,8 @@ impl Scheduler {
                 "spawned urgent fire-and-forget task"
             );
         } else {
+            #[cfg(folo_verif)]
+            crate::verif_hook::point("spawn:regular_queue.push");
             state
                 .regular_queue
                 .lock()
@@ -255,6 +271,8 @@ impl Scheduler {
         // Record the spawn for metrics.
         state.record_task_spawned();
 
+        #[cfg(folo_verif)]
+        crate::verif_hook::point("spawn:notify");
         // Notify one worker that work is available.
         state.wake_event.notify(1);
     }
@@ -262,6 +280,8 @@ impl Scheduler {
 
 /// Allocates and initializes a task without invoking task code under the pool lock.
 fn allocate_task<T: VicinalTask>(state: &ProcessorState, task: T) -> ErasedTaskHandle {
+    #[cfg(folo_verif)]
+    crate::verif_hook::point("spawn:task_pool.lock");
     let slot = {
         let pool = state.task_pool.lock().expect(NEVER_POISONED);
         pool.try_alloc_uninit_box()
